@@ -1,4 +1,5 @@
-/-! Driver executable for family `spy` — placeholder until the family is built. -/
+import Whv.Driver.Spy
+/-! Driver executable for family `spy` (C20): case lines on stdin, verdict lines on stdout. -/
 def main : IO UInt32 := do
-  IO.eprintln "family not built"
-  return 2
+  Whv.Driver.SpyFam.run (← IO.getStdin)
+  return 0
